@@ -76,8 +76,11 @@ fn seam_selfcheck() -> Result<(), String> {
     spec.keys = vec![[1u8; 16]];
     let res = run_world(&spec);
     let count = |k: seam::EvKind| res.log.iter().filter(|e| e.kind == k).count();
-    if count(seam::EvKind::Open) != 1 {
-        return Err(format!("expected 1 open event through the seam, saw {}", count(seam::EvKind::Open)));
+    if count(seam::EvKind::Open) != 2 {
+        return Err(format!("expected 2 open events through the seam (one from a spawned thread), saw {}", count(seam::EvKind::Open)));
+    }
+    if res.foreign_thread_calls == 0 {
+        return Err("calls of a thread spawned inside the simulation did not reach the seam".to_owned());
     }
     if count(seam::EvKind::Seek) < 2 {
         return Err(format!("expected >= 2 lseek events through the seam, saw {}", count(seam::EvKind::Seek)));
@@ -85,13 +88,13 @@ fn seam_selfcheck() -> Result<(), String> {
     if count(seam::EvKind::Read) < 3 {
         return Err("reads did not go through the seam".to_owned());
     }
-    if count(seam::EvKind::Close) != 2 {
+    if count(seam::EvKind::Close) != 3 {
         return Err("close did not go through the seam".to_owned());
     }
     if res.getrandom_calls != 1 {
         return Err(format!("expected exactly 1 getrandom call for the thread's RandomState, saw {}", res.getrandom_calls));
     }
-    if res.delivered() != vec![format!("meta 18 {} dup=true", follow::FOLLOW_PATH).into_bytes(), b"first\n".to_vec(), b"second line\nthird\n".to_vec(), b"slept 1".to_vec()] {
+    if res.delivered() != vec![format!("meta 18 {} dup=true", follow::FOLLOW_PATH).into_bytes(), b"first\n".to_vec(), b"second line\nthird\n".to_vec(), b"thread read 24".to_vec(), b"slept 1".to_vec()] {
         return Err(format!("std reads / clock through the seam returned {:?}", res.delivered().iter().map(|d| String::from_utf8_lossy(d).into_owned()).collect::<Vec<_>>()));
     }
     if res.sleeps != 1 {
@@ -697,6 +700,7 @@ fn case_main(args: &[String]) -> i32 {
 }
 
 fn main() {
+    seam::mark_harness_thread();
     let args: Vec<String> = std::env::args().skip(1).collect();
     if std::env::var("TZ").map(|t| t != "UTC").unwrap_or(true) {
         // pin the time zone before any thread exists
